@@ -273,3 +273,11 @@ PLAN["C07"]["thorough"]["tests"][0]["shards"] = 7
 PLAN["C07"]["thorough"]["tests"].append({"run": "TestC07Window", "shards": 3, "checks": 150, "timeout": 840, "tags": ("verif", "debug"), "env": {"VERIF_LUNMAP_WINDOW": 1}})
 PLAN["C07"]["rule"] += ("; TestC07Window: the merge-tier programs against a build of the repository with its own 'debug' tag, whose inject.AddUpdateLUNMapTimeout gives a rendezvous between "
                         "UpdateLUNMap's preload and its merge - the foreground writes are issued exactly inside that window (1 s per rebuild)")
+
+PLAN["C15"]["quick"]["tests"].append({"run": "TestC15Decode", "shards": 1, "checks": 1500, "timeout": 100})
+PLAN["C15"]["quick"]["tests"][0]["shards"] = 1
+PLAN["C15"]["thorough"]["tests"].append({"run": "TestC15Decode", "shards": 1, "checks": 60000, "timeout": 800})
+PLAN["C15"]["thorough"]["tests"][0]["shards"] = 1
+PLAN["C15"]["rule"] += ("; TestC15Decode: byte streams of 1-4 reference-encoded frames with one generated mutation (truncation, byte flip, junk before/behind, bad magic) decoded by Wire.Read and by "
+                        "the reference decoder: same frames or rejection, wrong magic never accepted (a native go-fuzz entry FuzzC15WireRead exists for manual campaigns; it is not part of the tiers because "
+                        "the pre-built test binary carries no coverage instrumentation)")
